@@ -65,6 +65,7 @@ def showOutcome (g : Graph) (reqs : List Nat) : Outcome → String
   | .cycle ch => "cycle:" ++ dots ch
   | .failed r => "failed:" ++ toString r
   | .badRef r => "badref:" ++ toString r
+  | .cancelled => "cancelled"
 
 def showEv (g : Graph) (tasks : List Task) : Ev → Option String
   | .call t r o a =>
@@ -157,6 +158,15 @@ def step (d : DS) (line : String) : DS × String :=
     match parseNat? t with
     | some t =>
       match _root_.Resource.step d.cfg d.g d.st (.resume t) with
+      | none => (d, "disabled")
+      | some s =>
+        let s' := quiesce d.cfg d.g 10000 s
+        if s'.cur.isSome then (d, "fuel-exhausted") else report d d.st s'
+    | none => (d, "bad-op")
+  | ["cancel", t] =>
+    match parseNat? t with
+    | some t =>
+      match _root_.Resource.step d.cfg d.g d.st (.cancel t) with
       | none => (d, "disabled")
       | some s =>
         let s' := quiesce d.cfg d.g 10000 s
